@@ -3,6 +3,8 @@
   R-PANIC-INV  every potentially panicking construct reachable from Value::get, the Index impls and
                ops::Index::index is discharged or in the reviewed inventory (none is today);
                ops::Index falls back with unwrap_or(&NIL), never unwrap
+  R-TAIL-MAP   cons::ListIter::next moves to Cons / Exhausted / Dot exactly for a Cons / Null / other cdr
+               (outcome map over all 11 value kinds)
   thorough     the same over the exact monomorphic reachability from the roots crate's
                value_get_* / value_index_* operations
 Not decided: the consistency relations between the traversals (value-level).
@@ -49,6 +51,11 @@ def run(ctx):
             r.ok("%s falls back with unwrap_or(&NIL)" % f.path, f)
         else:
             r.violation(f.path, "index-fallback", "%s no longer falls back with unwrap_or: a missing key/index would panic" % f.path, f.loc())
+    from .. import tailmap
+    rt = ctx.rule("R-TAIL-MAP", "the element iterator classifies the cdr of a cell: Cons continues, the empty list ends, "
+                                "every other kind (incl. #nil) is a dotted tail")
+    n = tailmap.check(rt, lexpr, which=("cons",))
+    rt.floor("cdr-kinds", n)
     if ctx.tier == "thorough":
         m = db.mono()
         r2 = ctx.rule("R-PANIC-INV/mono", "the same inventory over the exact monomorphic reachability of the index operations")
